@@ -128,7 +128,8 @@ theorem wanted_resetSasl (cfg : Cfg) (s : St) : (resetSasl cfg s).wanted.all isW
 theorem α_ircReset (cfg : Cfg) (s : St) :
     α (ircReset cfg s) = { fsm := .INIT_CAP_NEGOTIATION, saslAuth := false, afterConnect := false, endCount := 0,
                            epoch := s.epoch + 1, ackSasl := false, kinds := connectKinds cfg, aborts := (α s).aborts,
-                           acked := false, slowOk := true, evOk := (α s).evOk, wantedOk := (α s).wantedOk } := by
+                           acked := false, slowOk := true, evOk := (α s).evOk, wantedOk := (α s).wantedOk,
+                           policies := (α s).policies, forced := (α s).forced, sock := (α s).sock } := by
   have hw := wanted_resetSasl cfg s
   unfold ircReset queueConnectMessages transition clearForReset
   have h := tab_init
@@ -138,32 +139,41 @@ theorem α_ircReset (cfg : Cfg) (s : St) :
 theorem ref_ircReset (s : St) (h : cfg.realDriver = true) : Moves cfg K (α s) (α (ircReset cfg s)) := by
   rw [α_ircReset]; exact .single (.reset (α s) h)
 
-theorem α_connectTo (srv : Server) (s : St) : α (connectTo cfg srv s) = α s := by
-  unfold connectTo; rw [α_event _ _ rfl]; simp [isReconnect, α]
+theorem ref_connectTo (srv : Server) (s : St) (hr : cfg.realDriver = true) : Moves cfg K (α s) (α (connectTo cfg srv s)) := by
+  unfold connectTo
+  rw [α_event _ _ rfl]
+  have := Move.conn (cfg := cfg) (K := K) (α s) srv.forced hr
+  exact .single (by simpa [isReconnect, α] using this)
 
-theorem α_applyStsPolicy {s s' : St} {srv srv' : Server} (h : applyStsPolicy s srv = some (srv', s')) : α s' = α s := by
+theorem ref_applyStsPolicy {s s' : St} {srv srv' : Server} (h : applyStsPolicy s srv = some (srv', s')) :
+    Moves cfg K (α s) (α s') := by
   unfold applyStsPolicy at h
   split at h
-  · injection h with h; injection h with _ h; subst h; rfl
+  · injection h with h; injection h with _ h; subst h; exact .refl _
   · split at h
-    · split at h <;> (injection h with h; injection h with _ h; subst h; rfl)
+    · split at h
+      · injection h with h; injection h with _ h; subst h
+        exact .single (.expire (α s) srv.host)
+      · injection h with h; injection h with _ h; subst h; exact .refl _
     · cases h
 
-theorem α_drvConnect (srv : Option Server) (s : St) : α (drvConnect cfg srv s) = α s := by
+theorem ref_drvConnect (srv : Option Server) (s : St) (hr : cfg.realDriver = true) :
+    Moves cfg K (α s) (α (drvConnect cfg srv s)) := by
   unfold drvConnect
   cases srv with
-  | some x => exact α_connectTo x s
+  | some x => exact ref_connectTo x s hr
   | none =>
     simp only
     cases h : getNextServer cfg s with
-    | none => rfl
+    | none => exact .refl _
     | some p =>
       obtain ⟨x, s'⟩ := p
-      simp only [α_connectTo]
+      simp only
       unfold getNextServer at h
       split at h
       · cases h
-      · exact (α_applyStsPolicy h).trans rfl
+      · have h1 := ref_applyStsPolicy (cfg := cfg) (K := K) h
+        exact Moves.trans (Moves.trans (.of_eq rfl) h1) (ref_connectTo x s' hr)
 
 theorem α_drvDisconnect (s : St) : α (drvDisconnect s) = α s := by
   unfold drvDisconnect; split
@@ -176,7 +186,7 @@ theorem ref_realReconnect (w : Bool) (srv : Option Server) (s : St) (h : cfg.rea
   rw [α_drvDisconnect] at hr
   unfold realReconnect
   cases w
-  · simp only [Bool.false_eq_true, if_false]; rw [α_drvConnect]; exact hr
+  · simp only [Bool.false_eq_true, if_false]; exact Moves.trans hr (ref_drvConnect _ _ h)
   · simp only [if_true]; exact hr
 
 theorem ref_drvReconnect (w : Bool) (srv : Option Server) (s : St) :
@@ -325,7 +335,8 @@ theorem ref_onCapSts (policy : Str) (s : St) : Moves cfg K (α s) (α (onCapSts 
   split
   · exact .refl _
   · split
-    · exact .of_eq rfl
+    · rename_i hsec
+      exact .single (.store (α s) (by simpa [aSecure, secureConn, α] using hsec) _)
     · exact Moves.trans (ref_onShutdown s) (ref_drvReconnect _ _ _)
 
 theorem ref_addCapability (s : St) (item : Str) : Moves cfg K (α s) (α (addCapability cfg s item)) := by
